@@ -524,6 +524,7 @@ func (o *snapshotter) cleanupSnapshotDirectory(ctx context.Context, dir string) 
 	if err := os.RemoveAll(dir); err != nil {
 		return fmt.Errorf("failed to remove directory %q: %w", dir, err)
 	}
+	verifhook.Point("snap.cleanupdir.afterRemoveAll", o.root, dir)
 	return nil
 }
 
